@@ -51,6 +51,7 @@ def certificates(chk, d, ents):
     from .c17 import _NoOpt
     from .c10 import tp_entries
     tps = {e.name for e in tp_entries()}
+    failed = []
     for e in list(ents) + [t for t in tp_entries() if t.name.endswith(("_1", "_2"))]:
         variants = []
         try:
@@ -77,30 +78,20 @@ def certificates(chk, d, ents):
                     # concrete failing input on the real kernel happens in c_search(); record the broken tie.
                     chk.disagree("pureKernel certificate fails on a generated kernel",
                                  {"kernel": c.name, "variant": tag, "reply": r})
+                    if tag != "noopt" and not any(f[0] is e and f[1] == (tag == "sumfact") for f in failed):
+                        failed.append((e, tag == "sumfact"))
+    return failed
 
 
-def _c_worker_factory(ents, seed, ncalls):
+def _c_worker_factory(jobs, seed, ncalls):
     def work(i):
-        e = ents[i]
+        from .. import numeric
+        e, opts = jobs[i]
         rng = np.random.default_rng(seed * 7919 + i)
-        out = {"name": e.name, "kernels": 0, "bad": []}
-        objs = e.build()
-        cd = cjit.cache_dir("f64")
-        if e.kind == "expression":
-            cases, _, _ = kernels.cases_for_expressions(e.name, objs)
-            comp, mod, _ = pipeline.jit_expressions(objs, cd)
-            kobjs = list(comp)
-        else:
-            cases, _, _ = kernels.cases_for_forms(e.name, objs)
-            comp, mod, _ = pipeline.jit_forms(objs, cd)
-            kobjs = []
-            for f in comp:
-                n = f.form_integral_offsets[5] if hasattr(f, "form_integral_offsets") else 0
-                kobjs += [f.form_integrals[k] for k in range(n)]
-        if len(kobjs) != len(cases):
-            out["note"] = f"kernel count mismatch {len(kobjs)} vs {len(cases)}"
-            return out
-        for c, ko in zip(cases, kobjs):
+        out = {"name": e.name + ("" if not opts else ":" + ",".join(f"{k}={v}" for k, v in sorted(opts.items()))), "kernels": 0, "bad": []}
+        objs, cases, comp, mod = numeric.build(e, opts)
+        for c in cases:
+            ko = kernels.compiled_kernel(comp, c)
             out["kernels"] += 1
             for rep in range(ncalls):
                 inp = kernels.random_inputs(c, rng, A0="random", dyadic=False)
@@ -139,12 +130,12 @@ def _c_worker_factory(ents, seed, ncalls):
     return work
 
 
-def c_search(chk, ents, ncalls):
-    work = _c_worker_factory(ents, chk.seed, ncalls)
-    res = cjit.parallel_map(work, list(range(len(ents))))
+def c_search(chk, jobs, ncalls):
+    work = _c_worker_factory(jobs, chk.seed, ncalls)
+    res = cjit.parallel_map(work, list(range(len(jobs))))
     for i, (st, r) in sorted(res.items()):
         if st != "ok":
-            chk.notes.setdefault("c_search_errors", []).append(f"{ents[i].name}: {st}: {str(r)[:200]}")
+            chk.notes.setdefault("c_search_errors", []).append(f"{jobs[i][0].name}: {st}: {str(r)[:200]}")
             continue
         chk.case("c_kernel_calls", r["name"], n=max(1, r["kernels"] * ncalls))
         for b in r["bad"]:
@@ -161,11 +152,19 @@ def run(chk):
     ents = _entries(chk)
     static_only_const(chk)
     with lean.Driver("driver") as d:
-        certificates(chk, d, ents)
+        failed = certificates(chk, d, ents)
     n = len(ents) if chk.tier == "thorough" else 14
     sel = ents[:n] if chk.tier == "thorough" else [e for e in ents if e.name in (
         "laplace_coef_tri_p2", "rhs_tri_p2", "functional_tri", "stokes_mixed", "ext_facet_tet", "int_facet_tri",
         "vertex_tri", "math_tri", "conditional_tri", "nonaffine_quad", "multi_rule", "prism", "expr_rank1", "expr_facet")]
-    c_search(chk, sel, 3 if chk.tier == "thorough" else 2)
+    from .c10 import tp_entries
+    tps = [t for t in tp_entries() if t.name.endswith(("_1", "_2"))]
+    jobs = [(e, {}) for e in sel] + [(t, {"sum_factorization": True}) for t in (tps if chk.tier == "thorough" else tps[:3])]
+    # kernels whose certificate failed are always searched, with the options they were generated with
+    for e, sf in failed:
+        o = {"sum_factorization": True} if sf else {}
+        if not any(j[0].name == e.name and j[1] == o for j in jobs):
+            jobs.append((e, o))
+    c_search(chk, jobs, 3 if chk.tier == "thorough" else 2)
     if chk.tier == "thorough":
         chk.leanchecker(["FfcxProofs.C07"])
